@@ -14,6 +14,8 @@
 (* every group element (within MaxSteps) by composing them:                *)
 (*   SwapRows(i,j)   transpose two rows and the entries of P and W   (C10) *)
 (*   SwapCols(a,b) NegCol(a) Hadamard(q) AppendZero                  (C08) *)
+(*   PadZero(k, lay)  k zero columns (1 <= k <= 2^14) appended or           *)
+(*                    interleaved: NOT materialised, carried as `pad`  (C08) *)
 (*   BumpC1(i) BumpC2(i) BumpA BumpB   scale rows / coefficients     (C09) *)
 (*                                                                         *)
 (* INVARIANTS (checked in every reachable state, i.e. along every path):   *)
@@ -26,6 +28,13 @@
 (*                  Mean Sum Constant                                       *)
 (*   LawC10         A_{pi P}(pi J) = A_P(J)  Mean Sum Constant TrimmedMean  *)
 (*                  Krum (selection permuted, ambiguity flag invariant)    *)
+(*   PadLaw         inserting ONE zero column at ANY position keeps the     *)
+(*                  Gramian, the orthonormal rows of Q and commutes with   *)
+(*                  every exact aggregator (induction step: any count, any *)
+(*                  layout); the two layouts of PadZero for small counts   *)
+(*   WidenLaw       repeating every column 4 times and halving keeps the   *)
+(*                  Gramian and commutes with every exact aggregator (the  *)
+(*                  WIDE presentation m x (n 4^k) / 2^k used by C10)       *)
 (*   RowBracket     the Rayleigh bracket of the singular values by the     *)
 (*                  squared row norms (see below): with it the side of     *)
 (*                  norm_eps on which sigma_max AND the smallest non-zero  *)
@@ -40,12 +49,16 @@ CONSTANTS Mode,        \* "rows" | "cols" | "scale" | "mixed" | "trace" (all gen
           MaxSteps,    \* number of generators composed
           MaxZero,     \* number of zero columns that may be appended
           RowCounts,   \* set of row counts m of the instances
-          NGen         \* generated instances per row count (besides the curated ones)
+          NGen,        \* generated instances per row count (besides the curated ones)
+          PadCounts    \* the counts k that TLC offers to PadZero(k, lay) (any 1..PadMax is an action)
 
 MaxDen == 2
 CStep  == 1024                \* one bump of a row scaling: x 2^10
 CMax   == 1048576             \* 2^20: c spans 6 orders of magnitude
 ABMax  == 3
+PadMax == 16384               \* 2^14 zero columns (a large frozen / unused parameter block)
+PadSmall == 2                 \* counts for which TLC materialises the padded matrix (PadLaw)
+WideK  == 5                   \* wide presentation: every column repeated 4^5 times, scaled by 2^-5
 
 VARIABLES base,   \* [id, m, n, J, P, W]  - constant along a behaviour
           cls,    \* SymClassify(base.J)   - constant along a behaviour
@@ -54,9 +67,11 @@ VARIABLES base,   \* [id, m, n, J, P, W]  - constant along a behaviour
           J,      \* numerators of the transformed matrix (m x n), same denominator den
           P, W,   \* transformed parameter vectors
           c1, c2, ca, cb,
+          pad,    \* [cnt, lay]: cnt further all-zero columns, "append"ed or "interleave"d (not materialised)
           steps
 
-vars == <<base, cls, rp, Q, den, J, P, W, c1, c2, ca, cb, steps>>
+vars == <<base, cls, rp, Q, den, J, P, W, c1, c2, ca, cb, pad, steps>>
+NoPad == [cnt |-> 0, lay |-> "none"]
 
 M  == base.m
 N0 == base.n
@@ -94,7 +109,14 @@ Curated == <<
   \* m = 5
   << <<1, 0, 0>>, <<0, 1, 0>>, <<0, 0, 1>>, <<1, 1, 0>>, <<-1, 0, 1>> >>,
   << <<1, 1, 0, 0>>, <<0, 0, 0, 0>>, <<-1, 1, 0, 1>>, <<0, 1, 1, -1>>, <<1, 0, -1, 1>> >>,
-  << <<1, 1, 1>>, <<1, 0, 1>>, <<0, 1, 1>>, <<-1, -1, 0>>, <<1, 1, -1>> >> >>
+  << <<1, 1, 1>>, <<1, 0, 1>>, <<0, 1, 1>>, <<-1, -1, 0>>, <<1, 1, -1>> >>,
+  \* badly conditioned but of unambiguous rank: two nearly (anti)parallel rows, independent non-zero rows,
+  \* lambda_min / lambda_max of the Gramian between 2.5e-4 and 7.2e-4 (condition number of J 37 .. 63)
+  << <<4, 4, 3>>, <<-3, -3, -2>> >>,
+  << <<4, 3, -3>>, <<-3, -2, 2>>, <<1, 2, 2>> >>,
+  << <<4, 4, 3, 0>>, <<3, 3, 2, 0>>, <<0, -1, 1, 2>>, <<1, -1, 0, 1>> >> >>
+
+CuratedBadlyConditioned == {26, 27, 28}       \* positions of the badly conditioned instances in Curated
 
 \* parameter vectors of instance number k: entries 0..4 (pref / leak*4), not all zero;
 \* Constant weights W = P - 2 (negative, zero and positive weights)
@@ -129,9 +151,11 @@ Init == /\ base \in Instances
         /\ Q = Identity(base.n) /\ den = 1
         /\ J = base.J /\ P = base.P /\ W = base.W
         /\ c1 = Ones(base.m) /\ c2 = Ones(base.m) /\ ca = 1 /\ cb = 1
+        /\ pad = NoPad
         /\ steps = 0
 
-Tick == steps < MaxSteps /\ steps' = steps + 1
+\* PadZero closes a word: the padded columns are not materialised, no generator acts on them
+Tick == steps < MaxSteps /\ pad.cnt = 0 /\ steps' = steps + 1
 RowsOn  == Mode \in {"rows", "mixed", "trace"}
 ColsOn  == Mode \in {"cols", "mixed", "trace"}
 ScaleOn == Mode \in {"scale", "trace"}
@@ -142,7 +166,7 @@ SwapRows(i, j) ==
     /\ rp' = SymSwap(rp, i, j) /\ J' = SymSwap(J, i, j)
     /\ P' = SymSwap(P, i, j) /\ W' = SymSwap(W, i, j)
     /\ c1' = SymSwap(c1, i, j) /\ c2' = SymSwap(c2, i, j)
-    /\ UNCHANGED <<base, cls, Q, den, ca, cb>>
+    /\ UNCHANGED <<base, cls, Q, den, ca, cb, pad>>
 
 \* ---- C08: generators of the column group
 ColSwapM(A, a, b) == [i \in 1..Len(A) |-> SymSwap(A[i], a, b)]
@@ -162,31 +186,40 @@ NormQJ(Qm, Jm, d) == IF d > 1 /\ AllEven(Qm) THEN NormQJ(HalveM(Qm), HalveM(Jm),
 
 SwapCols(a, b) == /\ ColsOn /\ Tick /\ a < b
                   /\ Q' = ColSwapM(Q, a, b) /\ J' = ColSwapM(J, a, b)
-                  /\ UNCHANGED <<base, cls, rp, den, P, W, c1, c2, ca, cb>>
+                  /\ UNCHANGED <<base, cls, rp, den, P, W, c1, c2, ca, cb, pad>>
 NegCol(a)      == /\ ColsOn /\ Tick
                   /\ Q' = ColNegM(Q, a) /\ J' = ColNegM(J, a)
-                  /\ UNCHANGED <<base, cls, rp, den, P, W, c1, c2, ca, cb>>
+                  /\ UNCHANGED <<base, cls, rp, den, P, W, c1, c2, ca, cb, pad>>
 Hadamard(q)    == /\ ColsOn /\ Tick
                   /\ LET r == NormQJ(ColHadM(Q, q), ColHadM(J, q), 2 * den)
                      IN  /\ r[3] <= MaxDen
                          /\ Q' = r[1] /\ J' = r[2] /\ den' = r[3]
-                  /\ UNCHANGED <<base, cls, rp, P, W, c1, c2, ca, cb>>
+                  /\ UNCHANGED <<base, cls, rp, P, W, c1, c2, ca, cb, pad>>
 AppendZero     == /\ ColsOn /\ Tick /\ N < N0 + MaxZero
                   /\ Q' = [i \in 1..N0 |-> Append(Q[i], 0)]
                   /\ J' = [i \in 1..M |-> Append(J[i], 0)]
-                  /\ UNCHANGED <<base, cls, rp, den, P, W, c1, c2, ca, cb>>
+                  /\ UNCHANGED <<base, cls, rp, den, P, W, c1, c2, ca, cb, pad>>
+
+\* k all-zero columns at once (parameters that influence nothing: a frozen block, an unused head).  They are
+\* NOT materialised: the state keeps the m x N matrix and the pair (count, layout); the presented matrix
+\* is PadM(J, pad) below.  Any count 1..PadMax is an action (TraceAggSymmetry steps logged counts through
+\* it); Next offers the counts of PadCounts.
+PadLays == {"append", "interleave"}
+PadZero(k, lay) == /\ ColsOn /\ Tick /\ k \in 1..PadMax /\ lay \in PadLays
+                   /\ pad' = [cnt |-> k, lay |-> lay]
+                   /\ UNCHANGED <<base, cls, rp, Q, den, J, P, W, c1, c2, ca, cb>>
 
 Quads == {q \in [1..4 -> 1..N] : q[1] < q[2] /\ q[2] < q[3] /\ q[3] < q[4]}
 
 \* ---- C09: generators of the positive row scalings and of the coefficients
 BumpC1(i) == /\ ScaleOn /\ Tick /\ c1[i] < CMax /\ c1' = [c1 EXCEPT ![i] = @ * CStep]
-             /\ UNCHANGED <<base, cls, rp, Q, den, J, P, W, c2, ca, cb>>
+             /\ UNCHANGED <<base, cls, rp, Q, den, J, P, W, c2, ca, cb, pad>>
 BumpC2(i) == /\ ScaleOn /\ Tick /\ c2[i] < CMax /\ c2' = [c2 EXCEPT ![i] = @ * CStep]
-             /\ UNCHANGED <<base, cls, rp, Q, den, J, P, W, c1, ca, cb>>
+             /\ UNCHANGED <<base, cls, rp, Q, den, J, P, W, c1, ca, cb, pad>>
 BumpA     == /\ ScaleOn /\ Tick /\ ca < ABMax /\ ca' = ca + 1
-             /\ UNCHANGED <<base, cls, rp, Q, den, J, P, W, c1, c2, cb>>
+             /\ UNCHANGED <<base, cls, rp, Q, den, J, P, W, c1, c2, cb, pad>>
 BumpB     == /\ ScaleOn /\ Tick /\ cb < ABMax /\ cb' = cb + 1
-             /\ UNCHANGED <<base, cls, rp, Q, den, J, P, W, c1, c2, ca>>
+             /\ UNCHANGED <<base, cls, rp, Q, den, J, P, W, c1, c2, ca, pad>>
 
 \* one named action per generator family (TLC reports coverage per named action)
 DoSwapRows   == \E i, j \in 1..M : SwapRows(i, j)
@@ -194,12 +227,13 @@ DoSwapCols   == \E a, b \in 1..N : SwapCols(a, b)
 DoNegCol     == \E a \in 1..N : NegCol(a)
 DoHadamard   == \E q \in Quads : Hadamard(q)
 DoAppendZero == AppendZero
+DoPadZero    == \E k \in PadCounts, lay \in PadLays : PadZero(k, lay)
 DoBumpC1     == \E i \in 1..M : BumpC1(i)
 DoBumpC2     == \E i \in 1..M : BumpC2(i)
 DoBumpA      == BumpA
 DoBumpB      == BumpB
 
-Next == DoSwapRows \/ DoSwapCols \/ DoNegCol \/ DoHadamard \/ DoAppendZero
+Next == DoSwapRows \/ DoSwapCols \/ DoNegCol \/ DoHadamard \/ DoAppendZero \/ DoPadZero
         \/ DoBumpC1 \/ DoBumpC2 \/ DoBumpA \/ DoBumpB
 
 Spec == Init /\ [][Next]_vars
@@ -212,6 +246,7 @@ IdN0 == [i \in 1..N0 |-> [j \in 1..N0 |-> IF i = j THEN den * den ELSE 0]]
 TypeOK == /\ SymIsPerm(rp, M) /\ den \in {1, 2} /\ steps \in 0..MaxSteps
           /\ Len(J) = M /\ \A i \in 1..M : Len(J[i]) = N
           /\ ca \in 1..ABMax /\ cb \in 1..ABMax
+          /\ pad.cnt \in 0..PadMax /\ (pad.cnt = 0) = (pad.lay = "none") /\ pad.lay \in PadLays \cup {"none"}
 
 Consistent == /\ J = MatMul(Jp, Q, N)
               /\ P = SymPerm(base.P, rp) /\ W = SymPerm(base.W, rp)
@@ -270,6 +305,71 @@ LawC10 ==
                                       /\ SymKrumValue(k1.sel, k, J, den, N)
                                            = SymKrumValue(k0.sel, k, J0Q, den, N)
 
+-----------------------------------------------------------------------------
+(* zero columns in any number and at any place; the wide presentation                           *)
+
+\* position (1-based) of materialised column j among the N + k presented columns
+PadPos(j, k, lay) == IF lay = "interleave" THEN j + ((j - 1) * k) \div N ELSE j
+PadPosSeq == [j \in 1..N |-> PadPos(j, pad.cnt, pad.lay)]
+\* the presented vector / matrix (only ever evaluated by TLC for k <= PadSmall)
+PadVec(v, k, lay, zero) == [c \in 1..(N + k) |->
+                              IF \E j \in 1..N : PadPos(j, k, lay) = c
+                              THEN v[CHOOSE j \in 1..N : PadPos(j, k, lay) = c] ELSE zero]
+PadM(A, k, lay) == [i \in 1..Len(A) |-> PadVec(A[i], k, lay, 0)]
+\* ONE zero column inserted after position p (0 = in front)
+InsVec(v, p, zero) == [c \in 1..(Len(v) + 1) |-> IF c <= p THEN v[c] ELSE IF c = p + 1 THEN zero ELSE v[c - 1]]
+InsM(A, p) == [i \in 1..Len(A) |-> InsVec(A[i], p, 0)]
+
+\* the exact values on the current matrix, computed once per state (TLC evaluates a LET-bound value once)
+BaseVals == [mean |-> SymMean(J, den, N), sum |-> SymSum(J, den, N),
+             cP |-> SymConstant(P, J, den, N), cW |-> SymConstant(W, J, den, N),
+             tm |-> [b \in TMCfgs |-> SymTM(b, J, den, N)], tie |-> [b \in TMCfgs |-> SymTMTie(b, J, N)],
+             G |-> Gram(J),
+             kr |-> [fk \in KrumCfgs |-> LET r == SymKrum(GNow, fk[1], fk[2]) IN      \* selection: a function of the Gramian
+                                          [amb |-> r.amb, sel |-> r.sel,
+                                           val |-> IF r.amb THEN <<>> ELSE SymKrumValue(r.sel, fk[2], J, den, N)]]]
+
+\* what a presentation (X, d) of the current matrix with n columns obtained by the embedding `emb` of
+\* vectors must satisfy: Gramian g2 times the old one at denominator d (so every function of J J^T - weights,
+\* classification, tie brackets - is the same) and every exact aggregator commutes with it
+Commutes(bv, X, d, g2, n, emb(_), newtie) ==
+    /\ Gram(X) = [i \in 1..M |-> [j \in 1..M |-> g2 * bv.G[i][j]]]
+    /\ SymMean(X, d, n) = emb(bv.mean) /\ SymSum(X, d, n) = emb(bv.sum)
+    /\ SymConstant(P, X, d, n) = emb(bv.cP) /\ SymConstant(W, X, d, n) = emb(bv.cW)
+    /\ \A b \in TMCfgs : /\ SymTM(b, X, d, n) = emb(bv.tm[b])
+                          /\ SymTMTie(b, X, n) = (bv.tie[b] \/ (b >= 1 /\ newtie))     \* a zero column is one big tie
+    /\ \A fk \in KrumCfgs : ~bv.kr[fk].amb => SymKrumValue(bv.kr[fk].sel, fk[2], X, d, n) = emb(bv.kr[fk].val)
+
+\* Induction step of the zero-column clause: in EVERY reachable state (so after every word, including the
+\* states that already carry appended zero columns) inserting one more zero column at ANY position p keeps
+\* the Gramian, the orthonormal rows of Q and every exact value.  The result is again a state of the same
+\* form, hence k columns at any places - the two layouts of PadZero for every count - follow by induction
+\* on k; the layouts themselves are materialised for k <= PadSmall.  Evaluated in the states in which
+\* PadZero is enabled (a state reached by PadZero has the matrix of its predecessor, and a word of full
+\* length cannot be padded any more: nothing to evaluate there besides the index map).
+PadLaw ==
+    /\ (pad.cnt = 0 /\ steps < MaxSteps) =>
+         LET bv == BaseVals IN
+         /\ \A p \in 0..N : LET emb(v) == InsVec(v, p, RZero) IN
+                               Gram(InsM(Q, p)) = IdN0 /\ Commutes(bv, InsM(J, p), den, 1, N + 1, emb, TRUE)
+         /\ \A k \in 1..PadSmall : \A lay \in PadLays :
+               LET emb(v) == PadVec(v, k, lay, RZero) IN
+               Gram(PadM(Q, k, lay)) = IdN0 /\ Commutes(bv, PadM(J, k, lay), den, 1, N + k, emb, TRUE)
+    /\ \A j \in 1..N : /\ PadPosSeq[j] \in 1..(N + pad.cnt)
+                        /\ j > 1 => PadPosSeq[j - 1] < PadPosSeq[j]
+
+\* The wide presentation: every column repeated 4 times, the whole halved (denominator doubled).  One step
+\* keeps the Gramian and commutes with every exact aggregator; the result is again an integer matrix over a
+\* power-of-two denominator, so k steps (4^k copies, 2^-k) follow by induction.  Row permutations act on
+\* rows, widening on columns: they commute, and the classification (a function of the Gramian) is that of
+\* the narrow instance.
+WidenV(v, r) == [c \in 1..(r * Len(v)) |-> v[((c - 1) \div r) + 1]]
+WidenM(A, r) == [i \in 1..Len(A) |-> WidenV(A[i], r)]
+HalfR(x) == Frac(x[1], 2 * x[2])
+WidenLaw ==
+    LET emb(v) == [c \in 1..(4 * N) |-> HalfR(WidenV(v, 4)[c])]
+    IN  Commutes(BaseVals, WidenM(J, 4), 2 * den, 4, 4 * N, emb, FALSE)     \* Gram(X) / (2 den)^2 = Gram(J) / den^2
+
 Lin(A(_)) == A(RowScale(XC, J)) = RVAdd(RVScale(R(ca), A(RowScale(c1, J))), RVScale(R(cb), A(RowScale(c2, J))))
 LawC09 ==
     /\ LET A(X) == SymMean(X, den, N) IN Lin(A)
@@ -324,11 +424,19 @@ ExpRobust ==
                      IN  [f |-> f, k |-> k, amb |-> r.amb, sel |-> SymSeqOf(r.sel),
                           val |-> IF r.amb THEN <<>> ELSE SymKrumValue(r.sel, k, J, den, N)]]]
 
+\* UPGrad's reg_eps ladder (C09, "reg_eps in a ladder down to 1e-12"): rung k is reg_eps = 10^-k.  The bound of
+\* the statement is per rung, against that rung's reg_eps, whatever was evaluated before: the replay walks the
+\* ladder with one fresh aggregator per rung DOWN and then UP again in one process, in exactly these orders.
+RegExps == <<2, 4, 6, 8, 10, 12>>
+LadderWalks == [down |-> RegExps, up |-> [k \in 1..Len(RegExps) |-> RegExps[Len(RegExps) + 1 - k]]]
+
 Scenario ==
     [id |-> base.id, mode |-> Mode, m |-> M, n0 |-> N0, n |-> N, steps |-> steps,
      J0 |-> base.J, P0 |-> base.P, W0 |-> base.W,
      rp |-> rp, Q |-> Q, den |-> den, J |-> J, P |-> P, W |-> W,
      c1 |-> c1, c2 |-> c2, a |-> ca, b |-> cb,
+     pad |-> pad, padpos |-> PadPosSeq, widek |-> WideK, ladder |-> LadderWalks,
+     badcond |-> base.id \in CuratedBadlyConditioned,
      colperm |-> QIsColPerm, cls |-> cls, prefDeg |-> PrefDeg, gd |-> GDiag,
      exp |-> ExpLinear(J, den), rob |-> ExpRobust,
      lin |-> IF Mode = "scale"
